@@ -246,8 +246,6 @@ Qed.
 
 Lemma aside_eta : forall a, mkA (objs a) (pending a) (sdirty a) (atrie a) (refund a) (thash a) (txindex a) (logs a) (logsize a) (preimages a) (jr a) = a.
 Proof. now destruct a. Qed.
-Lemma journal_eta : forall E (j : journal E), mkJ (j_entries j) (j_dirties j) = j.
-Proof. now destruct j. Qed.
 
 (* a live, not deleted object at ad *)
 Definition live (a : aside) (ad : N) : Prop := exists o, find (objs a) ad = Some o /\ o_deleted o = false.
@@ -443,7 +441,8 @@ Proof.
       * cbn. rewrite (del_set_absent _ _ _ Hf), journal_eta.
         unfold aeq; cbn. repeat split; auto using objs_sim_refl. lia.
   - split; cbn; [apply Hw|]. intros th l. rewrite find_set.
-    destruct (N.eqb (thash a) th); [|apply Hw]. intros H; inversion H. destruct (loglist a (thash a)); discriminate.
+    destruct (N.eqb (thash a) th); [|apply Hw]. intros H; inversion H.
+    intro Hnil. apply app_eq_nil in Hnil. destruct Hnil; discriminate.
 Qed.
 
 Lemma step_add_preimage : forall a h id, aext a (add_preimage a h id).
@@ -464,4 +463,137 @@ Proof.
   intros a g b H. unfold sub_refund in H. cbn in H. destruct (N.ltb (refund a) g); [discriminate|]. inversion H; subst.
   eapply aext_one with (e := ERefund (refund a)); [reflexivity | reflexivity |].
   cbn. rewrite journal_eta. unfold aeq; cbn. repeat split; auto using objs_sim_refl.
+Qed.
+
+(* ---- the account operations ------------------------------------------- *)
+
+Lemma awf_touch : forall a ad, awf a -> awf (touch a ad).
+Proof. intros a ad H. unfold touch. destruct (N.eqb ad ripemd); exact H. Qed.
+
+Lemma live_find : forall a ad, live a ad -> exists o, find (objs a) ad = Some o /\ o_deleted o = false.
+Proof. intros a ad H. exact H. Qed.
+
+Lemma op_add_balance : forall a ad v,
+  awf a -> (ad = ripemd -> v <> 0%Z) -> aext a (add_balance a ad v) /\ awf (add_balance a ad v).
+Proof.
+  intros a ad v Hw Hr. unfold add_balance.
+  destruct (step_get_or_new a ad Hw) as (H1 & H2 & H3).
+  destruct (Z.eqb v 0) eqn:Ev.
+  - destruct (empty_obj (the_obj (get_or_new a ad) ad)); [|auto].
+    split; [|now apply awf_touch]. eapply aext_trans; [exact H1|]. apply step_touch.
+    intro; subst. apply Z.eqb_eq in Ev. now apply Hr.
+  - split; [eapply aext_trans; [exact H1 | now apply step_balance]|].
+    unfold so_set_balance. now apply awf_upd.
+Qed.
+
+Lemma op_sub_balance : forall a ad v, awf a -> aext a (sub_balance a ad v) /\ awf (sub_balance a ad v).
+Proof.
+  intros a ad v Hw. unfold sub_balance.
+  destruct (step_get_or_new a ad Hw) as (H1 & H2 & H3).
+  destruct (Z.eqb v 0); [auto|].
+  split; [eapply aext_trans; [exact H1 | now apply step_balance]|]. unfold so_set_balance. now apply awf_upd.
+Qed.
+
+Lemma op_set_balance : forall a ad v, awf a -> aext a (set_balance a ad v) /\ awf (set_balance a ad v).
+Proof.
+  intros a ad v Hw. unfold set_balance.
+  destruct (step_get_or_new a ad Hw) as (H1 & H2 & H3).
+  split; [eapply aext_trans; [exact H1 | now apply step_balance]|]. unfold so_set_balance. now apply awf_upd.
+Qed.
+
+Lemma op_set_nonce : forall a ad n, awf a -> aext a (set_nonce a ad n) /\ awf (set_nonce a ad n).
+Proof.
+  intros a ad n Hw. unfold set_nonce.
+  destruct (step_get_or_new a ad Hw) as (H1 & H2 & H3).
+  split; [eapply aext_trans; [exact H1 | now apply step_nonce]|]. now apply awf_upd.
+Qed.
+
+Lemma op_set_code : forall a ad c, awf a -> aext a (set_code a ad c) /\ awf (set_code a ad c).
+Proof.
+  intros a ad c Hw. unfold set_code.
+  destruct (step_get_or_new a ad Hw) as (H1 & H2 & H3).
+  split; [eapply aext_trans; [exact H1 | now apply step_code]|]. now apply awf_upd.
+Qed.
+
+Lemma op_set_state : forall a ad k v, awf a -> aext a (set_state a ad k v) /\ awf (set_state a ad k v).
+Proof.
+  intros a ad k v Hw. unfold set_state.
+  destruct (step_get_or_new a ad Hw) as (H1 & H2 & (o & Hf & Hd)).
+  rewrite (the_obj_find _ _ _ Hf).
+  destruct (N.eqb (get_state o k) v); [auto|].
+  split; [eapply aext_trans; [exact H1 | now apply step_storage]|]. now apply awf_upd.
+Qed.
+
+Lemma op_suicide : forall a ad, awf a -> aext a (fst (suicide a ad)) /\ awf (fst (suicide a ad)).
+Proof.
+  intros a ad Hw. unfold suicide. destruct (get_obj a ad) as [o|] eqn:E; cbn.
+  - assert (Hl : live a ad) by (apply get_obj_live_iff; eauto).
+    destruct Hl as (o' & Hf & Hd). assert (o' = o).
+    { unfold get_obj in E. rewrite Hf, Hd in E. now inversion E. } subst o'.
+    split; [now apply step_suicide | now apply awf_upd].
+  - auto using aext_refl.
+Qed.
+
+Lemma op_create_account : forall a ad, awf a -> aext a (create_account a ad) /\ awf (create_account a ad).
+Proof.
+  intros a ad Hw. unfold create_account, create_object.
+  destruct (find (objs a) ad) as [p|] eqn:Hf.
+  - unfold upd_obj. cbn. rewrite find_set_same. split.
+    + eapply aext_one with (e := EResetObject ad p); [reflexivity | reflexivity |].
+      cbn. rewrite !set_set, (set_same_id _ _ _ Hf), journal_eta.
+      unfold aeq; cbn. repeat split; auto using objs_sim_refl.
+    + split; cbn; [|apply Hw]. intros x Hx. rewrite set_set, find_set.
+      destruct (N.eqb ad x); [discriminate|]. now apply (proj1 Hw).
+  - pose proof (step_create_object a ad Hw) as (H1 & H2 & _). unfold create_object in H1, H2. rewrite Hf in H1, H2.
+    cbn in H1, H2. auto.
+Qed.
+
+Lemma op_update_delegator : forall a ad tov delta dl,
+  awf a -> aext a (update_delegator a ad tov delta dl) /\ awf (update_delegator a ad tov delta dl).
+Proof.
+  intros a ad tov delta dl Hw. unfold update_delegator.
+  destruct (get_obj a ad) as [o|] eqn:E; [|auto using aext_refl].
+  assert (Hl : live a ad) by (apply get_obj_live_iff; eauto).
+  set (a1 := if match search_ge (o_dlgs o) tov with Some x => N.eqb x tov | None => false end
+             then (if dl then so_update_dlgs a ad (del_first (o_dlgs o) tov) else a)
+             else (if dl then a else so_update_dlgs a ad (ins_sorted (o_dlgs o) tov))).
+  assert (H1 : aext a a1 /\ awf a1 /\ live a1 ad).
+  { assert (Hs : forall l, aext a (so_update_dlgs a ad l) /\ awf (so_update_dlgs a ad l) /\ live (so_update_dlgs a ad l) ad).
+    { intros l. split; [now apply step_dlgs | split; [unfold so_update_dlgs; now apply awf_upd|]].
+      unfold so_update_dlgs; apply live_upd; auto; intros []; reflexivity. }
+    assert (H0 : aext a a /\ awf a /\ live a ad) by (split; [apply aext_refl | split; assumption]).
+    unfold a1. destruct (match search_ge (o_dlgs o) tov with Some x => N.eqb x tov | None => false end), dl; auto. }
+  destruct H1 as (H1 & H2 & H3).
+  split; [eapply aext_trans; [exact H1 | now apply step_dlgbal]|]. now apply awf_upd.
+Qed.
+
+(* awf survives a journal revert *)
+Lemma awf_entry_revert : forall e a b, awf a -> a_entry_revert e a = Some b -> awf b.
+Proof.
+  intros e a b Hw Hr. destruct e; cbn in Hr;
+    try (destruct (get_obj a a0); inversion Hr; subst; auto using awf_upd; fail);
+    try (inversion Hr; subst; exact Hw).
+  - inversion Hr; subst. split; cbn; [|apply Hw]. intros x Hx. rewrite mem_rem in Hx.
+    apply andb_true_iff in Hx. destruct Hx as [Hm Hne]. apply negb_true_iff, N.eqb_neq in Hne.
+    rewrite find_del_other by congruence. now apply (proj1 Hw).
+  - inversion Hr; subst. split; cbn; [|apply Hw]. intros x Hx. rewrite find_set.
+    destruct (N.eqb a0 x); [discriminate|]. now apply (proj1 Hw).
+  - unfold loglist in Hr. destruct (find (logs a) th) as [[|l0 [|l1 lr]]|] eqn:Hf; try discriminate;
+      inversion Hr; subst; (split; cbn; [apply Hw|]); intros t l Hl.
+    + destruct (N.eqb_spec th t); [subst; now rewrite find_del_same in Hl|].
+      rewrite find_del_other in Hl by congruence. eapply (proj2 Hw); eauto.
+    + rewrite find_set in Hl. destruct (N.eqb th t); [|eapply (proj2 Hw); eauto].
+      inversion Hl. discriminate.
+Qed.
+
+Lemma awf_set_jr : forall a j, awf a -> awf (set_jr j a).
+Proof. intros a j H. exact H. Qed.
+
+Lemma awf_revert : forall n a b, awf a -> a_revert n a = Some b -> awf b.
+Proof.
+  induction n as [|n IH]; intros a b Hw Hr; cbn in Hr.
+  - now inversion Hr; subst.
+  - destruct (j_entries (jr a)) as [|e rest]; [discriminate|].
+    destruct (a_entry_revert e a) as [c|] eqn:E; [|discriminate].
+    eapply IH; [|exact Hr]. apply awf_set_jr. eapply awf_entry_revert; eauto.
 Qed.
